@@ -743,21 +743,25 @@ impl DebugSession {
     }
 
     fn create_machine(&mut self, adapter: Box<dyn MachineAdapter + Send + Sync>) {
-        if let Some(cg) = adapter.codegen() {
+        let own_codegen = adapter.codegen();
+        let adapter = Arc::new(RwLock::new(adapter));
+
+        if let Some(cg) = own_codegen {
+            // A machine that comes with its own program (the test runner) also comes with its own 'ram()', which reads its
+            // memory directly. It evaluates assertions on its own thread while it runs: going through the adapter there
+            // would wait for a request (a 'pause', say) that holds the adapter and waits for the machine in turn.
             self.codegen = Some(cg);
         } else {
             self.codegen = self.lsp.lock().unwrap().codegen();
-        }
-        let adapter = Arc::new(RwLock::new(adapter));
-
-        if let Some(codegen) = &self.codegen {
-            let mut codegen = codegen.lock().unwrap();
-            ensure_ram_fn(
-                &mut codegen,
-                Box::new(MachineAdapterMemoryAccessor {
-                    adapter: adapter.clone(),
-                }),
-            );
+            if let Some(codegen) = &self.codegen {
+                let mut codegen = codegen.lock().unwrap();
+                ensure_ram_fn(
+                    &mut codegen,
+                    Box::new(MachineAdapterMemoryAccessor {
+                        adapter: adapter.clone(),
+                    }),
+                );
+            }
         }
 
         self.machine = Some(Machine::new(adapter));
